@@ -850,12 +850,17 @@ class Sim:
             f["_done"] = True
             self.deliver(f, target=rel)
             raise _oserror(f["errno"], os.fspath(file))
-        if self.plan["env"].get("crlf") and "b" not in mode:
-            # the same tree checked out with core.autocrlf=true: every line ends in \r\n on disk
+        if self.plan["env"].get("crlf"):
+            # the same tree checked out with core.autocrlf=true: every line ends in \r\n on disk,
+            # whichever way the file is opened (text mode translates it back, binary mode and
+            # codecs.open do not)
             with self.real_open(file, "rb") as bf:
                 raw_bytes = bf.read().replace(b"\r\n", b"\n").replace(b"\n", b"\r\n")
-            enc = kw.get("encoding") or (a[1] if len(a) > 1 else None) or "utf-8"
-            real = io.TextIOWrapper(io.BytesIO(raw_bytes), encoding=enc, errors=kw.get("errors"), newline=kw.get("newline"))
+            if "b" in mode:
+                real = io.BytesIO(raw_bytes)
+            else:
+                enc = kw.get("encoding") or (a[1] if len(a) > 1 else None) or "utf-8"
+                real = io.TextIOWrapper(io.BytesIO(raw_bytes), encoding=enc, errors=kw.get("errors"), newline=kw.get("newline"))
             self.probe("crlf_checkout")
         else:
             real = self.real_open(file, mode, *a, **kw)
